@@ -384,7 +384,15 @@ class Executor:
             c = cells[0]
             if isinstance(c, tuple) and c[0] == 'p': return c[1]
             raise Outcome('unsupported', 'ptr load of non-ptr bytes')
-        if any(c is None for c in cells): raise Outcome('ub', 'uninit load')
+        if any(c is None for c in cells):
+            # LLVM semantics: loading uninitialised memory yields undef, which is UB only under !noundef (rustc
+            # emits speculative loads of enum payloads that a later `select` discards). Model undef as a fresh
+            # unconstrained value (0 in concrete mode): using it for control flow can then only create spurious
+            # satisfiable paths, which the native replay would expose as a machinery error, never a false pass.
+            if getattr(self, '_noundef', True): raise Outcome('ub', 'uninit load (!noundef)')
+            self._undef_n = getattr(self, '_undef_n', 0) + 1
+            w = type_bits(ty)
+            return bv(0, w) if self.concrete else z3.BitVec('undef!%d' % self._undef_n, w)
         if any(isinstance(c, tuple) for c in cells): raise Outcome('unsupported', 'int load of ptr bytes')
         w = type_bits(ty)
         c0 = cells[0]
@@ -570,6 +578,7 @@ class Executor:
 
     def exec_ins(self, st, fr, ins):
         env = fr['env']
+        self._noundef = '!noundef' in ins
         ins = re.sub(r',\s*![\w.]+ !\d+', '', ins)       # metadata attachments
         ins = re.sub(r',\s*![\w.]+ !\{\}', '', ins)
         ins = re.sub(r',\s*align \d+', '', ins)
